@@ -67,6 +67,13 @@ def all_signatures():
                                'varkw': varkw, 'ann': False, 'async': False, 'eqdefaults': True}
 
 
+    # async generator functions (async def + yield): neither plain functions nor coroutine functions
+    for npos in (0, 1, 2):
+        for ndef in range(npos + 1):
+            for kwodef in ((), (True,), (False,)):
+                for varkw in (False, True):
+                    yield {'npos': npos, 'ndef': ndef, 'varargs': False, 'kwodef': list(kwodef), 'varkw': varkw,
+                           'ann': False, 'async': 'gen'}
     # falsy defaults (None, 0, '', False, ()) - "is there a default?" decided by truth value goes wrong here - and
     # arbitrary objects as defaults / annotations (no usable repr, NaN, unhashable, strings that are not
     # identifiers), with other names for the * and ** parameters
@@ -159,8 +166,8 @@ def source(sig, name='target'):
     if sig['varkw']:
         parts.append('**' + a('kw'))
     ret = ' -> dict' if sig['ann'] else ''
-    return ('%sdef %s(%s)%s:\n    "docstring of target"\n    return dict(locals())\n'
-            % ('async ' if sig['async'] else '', name, ', '.join(parts), ret))
+    return ('%sdef %s(%s)%s:\n    "docstring of target"\n    %s dict(locals())\n'
+            % ('async ' if sig['async'] else '', name, ', '.join(parts), ret, 'yield' if sig['async'] == 'gen' else 'return'))
 
 
 def make(sig):
@@ -185,7 +192,9 @@ def run_coro(c):
 def call(fn, is_async, args, kwargs):
     try:
         r = fn(*args, **kwargs)
-        if is_async:
+        if is_async == 'gen':
+            r = run_coro(r.__anext__())       # what `async for x in fn(...)` does first
+        elif is_async:
             r = run_coro(r)
         return ('ok', r)
     except TypeError:
@@ -232,7 +241,11 @@ def check(c, st):
     sig = c['sig']
     f = make(sig)
     is_async = sig['async']
-    if is_async:
+    if is_async == 'gen':
+        async def passthrough(*a, **kw):
+            async for x in f(*a, **kw):
+                yield x
+    elif is_async:
         async def passthrough(*a, **kw):
             return await f(*a, **kw)
     else:
@@ -252,7 +265,7 @@ def check(c, st):
             return ('metadata:' + attr, '%s: %r vs %r' % (attr, getattr(w, attr, None), getattr(f, attr)))
     if getattr(w, '__wrapped__', None) is not f:
         return ('metadata:__wrapped__', '__wrapped__ is %r' % (getattr(w, '__wrapped__', None),))
-    if inspect.iscoroutinefunction(w) != is_async:
+    if is_async != 'gen' and inspect.iscoroutinefunction(w) != is_async:
         return ('metadata:async-ness', 'iscoroutinefunction(wrapper)=%r' % inspect.iscoroutinefunction(w))
     shapes = list(call_shapes(sig))
     if c.get('sample') is not None and len(shapes) > c['sample']:
@@ -275,7 +288,11 @@ def check(c, st):
                     % (source(sig).splitlines()[0], args, kwargs, rf, rw))
         st.count('call_shapes')
     # stacked decorators: the wrapper is wrapped again (it already carries __wrapped__ and the copied __dict__)
-    if is_async:
+    if is_async == 'gen':
+        async def outer_pt(*a, **kw):
+            async for x in w(*a, **kw):
+                yield x
+    elif is_async:
         async def outer_pt(*a, **kw):
             return await w(*a, **kw)
     else:
